@@ -149,7 +149,9 @@ def walk_case(steps):
         'cfg': st.sampled_from([{'hold': 180, 'idle_hold': 30, 'connect_retry': 60},
                                 {'hold': 9, 'idle_hold': 5, 'connect_retry': 60},
                                 {'hold': 0, 'idle_hold': 30, 'connect_retry': 60},
-                                {'hold': 30, 'idle_hold': 1, 'connect_retry': 40}]),
+                                {'hold': 30, 'idle_hold': 1, 'connect_retry': 40},
+                                {'hold': 3, 'idle_hold': 2, 'connect_retry': 60},
+                                {'hold': 65535, 'idle_hold': 1, 'connect_retry': 31}]),
         'choices': st.lists(st.integers(0, 999), min_size=steps // 2, max_size=steps)})
 
 
